@@ -6,6 +6,7 @@ import gens as G
 
 ID = "C02"
 IMPORTS = "From QV.Model Require Import Base Matrix Arith Expr Extrema Sat PCBO.\nFrom QV.Corr Require Import C02."
+CHUNK = 25
 CASE_TYPE = "(cin * cout)"
 RUN, EQB = "run_case", "out_eqb"
 N = {"quick": 500, "thorough": 6000}
@@ -100,7 +101,9 @@ def gen_call(rng, labs):
         b = [lo - F(1, 2), hi + F(1, 4)]
     lam = rng.choice([F(1), F(1), F(2), F(1, 2), F(7, 4), F(3)] + ([F(0)] if rng.random() < 0.15 else []))
     jb = None if b is None else [None if x is None else [F(x).numerator, F(x).denominator] for x in b]
-    return {"rel": rng.choice(REL), "P": G.jraw(P), "lam": [lam.numerator, lam.denominator], "log": rng.random() < 0.5, "bounds": jb}
+    # unary slack needs one ancilla per unit of range: keep those cases small so the model stays cheap to evaluate
+    log = True if hi - lo > 9 else rng.random() < 0.5
+    return {"rel": rng.choice(REL), "P": G.jraw(P), "lam": [lam.numerator, lam.denominator], "log": log, "bounds": jb}
 
 
 def gen(rng, i, tier):
